@@ -207,7 +207,10 @@ def _public_path(ctx, first=None):
     out = []
     rng = ctx.rng
     msgs = [dec.decode_basic_string("2020-01-01-00:00:00.000,6,59904,1,255,3,00,ee,00", True),
-            dec.decode_basic_string("2020-01-01-00:00:00.000,2,127250,1,255,8,01,10,27,ff,7f,ff,7f,fd", True)]
+            dec.decode_basic_string("2020-01-01-00:00:00.000,2,127250,1,255,8,01,10,27,ff,7f,ff,7f,fd", True),
+            # an ADDRESSED PGN of data page 1 (PF 0xEE, DP 1): fast-packet, the 4-byte payload fits its first frame
+            dec.decode_basic_string("2020-01-01-00:00:00.000,6,126464,1,255,4,1b,4b,f3,03", True)]
+    msgs = [m for m in msgs if m is not None]
     for it in range(ctx.n(200, 2000)):
         m = rng.choice(msgs)
         # half of the messages repeat (source, priority) of an earlier one with another destination: the encoder object
@@ -219,9 +222,9 @@ def _public_path(ctx, first=None):
         if first is not None and it < 4:
             # the stored header (after 0..3 other messages through the same long-lived encoder)
             if it == 3 or rng.random() < 0.5:
-                m = msgs[0] if first[0] == 59904 else msgs[1]
+                m = next((x for x in msgs if x.PGN == first[0]), msgs[0])
                 m.source, m.destination, m.priority = first[1], first[2], first[3]
-        exp = (m.PGN, m.source, m.destination if m.PGN == 59904 else 255, m.priority)
+        exp = (m.PGN, m.source, m.destination if ((m.PGN >> 8) & 0xFF) < 240 else 255, m.priority)
         for fmt, e, d in (("ebyte", enc.encode_ebyte, dec.decode_tcp), ("usb", enc.encode_usb, dec.decode_usb),
                           ("yd", enc.encode_yacht_devices, lambda b: dec.decode_yacht_devices_string("00:00:00.000 R " + b.decode())),
                           ("actisense", lambda m_: ["A000001.000 " + enc.encode_actisense(m_)], dec.decode_actisense_string)):
